@@ -1802,3 +1802,34 @@ Example C04_reachable3_inhabited :
    /\ C05_Parser.HostOK C03_ReachKnown.ex_hp3 C02_AuthMain.ex_hp C03_ReachEx.ex_hd2 /\ C05_Alphabet.IpOKv C03_ReachEx.ex_hd2)
   /\ C04_Reach3Ex.reach3_ci_example_stmt.
 Proof. exact (conj C03_ReachFullEx.ex3_full_hyps C04_Reach3Ex.reach3_ci_example). Qed.
+
+(* the Punycode DECODER's main loop (Proofs/C04_CostPunyDec.v): the cost twin computes Punycode.dec_loop; L code units with m
+   insertions already collected cost at most L (1 + m + L) + 1 steps (one per code unit, plus one per collected insertion
+   at every decoded delta - the decode side of finding F-C04-10 for the public, uncapped functions); under the cap of
+   2000 code units that uts46 applies before decoding: at most 2001 steps per code unit.  Not counted: the final
+   sort_by_key (O(m log m) in Rust) and the Decode iterator (one step per output character). *)
+From RU Require Proofs.C04_CostPunyDec.
+Theorem C04_cost_punycode_decoder :
+  (forall dbg it input mid p w k i len cp bias ins,
+     fst (C04_CostPunyDec.dec_loop_c dbg it input mid p w k i len cp bias ins)
+     = Punycode.dec_loop dbg it input mid p w k i len cp bias ins)
+  /\ (forall dbg it input mid p w k i len cp bias ins,
+        snd (C04_CostPunyDec.dec_loop_c dbg it input mid p w k i len cp bias ins)
+        <= N.of_nat (length input) * (1 + N.of_nat (length ins) + N.of_nat (length input)) + 1)
+  /\ (forall dbg it input len0, (length input <= 2000)%nat ->
+        snd (C04_CostPunyDec.dec_loop_c dbg it input false 0 1 Punycode.BASE 0 len0 Punycode.INITIAL_N Punycode.INITIAL_BIAS [])
+        <= 2001 * N.of_nat (length input) + 1).
+Proof.
+  exact (conj C04_CostPunyDec.dec_loop_c_fst (conj C04_CostPunyDec.dec_loop_c_le C04_CostPunyDec.dec_loop_c_capped)).
+Qed.
+Check C04_cost_punycode_decoder :
+  (forall dbg it input mid p w k i len cp bias ins,
+     fst (C04_CostPunyDec.dec_loop_c dbg it input mid p w k i len cp bias ins)
+     = Punycode.dec_loop dbg it input mid p w k i len cp bias ins)
+  /\ (forall dbg it input mid p w k i len cp bias ins,
+        snd (C04_CostPunyDec.dec_loop_c dbg it input mid p w k i len cp bias ins)
+        <= N.of_nat (length input) * (1 + N.of_nat (length ins) + N.of_nat (length input)) + 1)
+  /\ (forall dbg it input len0, (length input <= 2000)%nat ->
+        snd (C04_CostPunyDec.dec_loop_c dbg it input false 0 1 Punycode.BASE 0 len0 Punycode.INITIAL_N Punycode.INITIAL_BIAS [])
+        <= 2001 * N.of_nat (length input) + 1).
+Print Assumptions C04_cost_punycode_decoder.
